@@ -196,19 +196,14 @@ func (l *orderColumnsRow) compare(tp Type, lval, rval Column, reverse bool) int 
 }
 
 func (l *orderColumnsRow) compareBytes(lval, rval Column, reverse bool) int {
-	var (
-		lbval []byte
-		rbval []byte
-	)
-	switch lval.(type) {
-	case []byte:
-		lbval = lval.([]byte)
-		rbval = rval.([]byte)
-	case string:
-		lbval = []byte(lval.(string))
-		rbval = []byte(rval.(string))
-	default:
-		return 0
+	lbval, lok := convertToByteArray(lval)
+	rbval, rok := convertToByteArray(rval)
+	if !lok {
+		// Dynamic typed values (JSON fields) may differ from row to row
+		lbval = []byte(toString(lval))
+	}
+	if !rok {
+		rbval = []byte(toString(rval))
 	}
 	if reverse {
 		return 0 - bytes.Compare(lbval, rbval)
@@ -216,30 +211,25 @@ func (l *orderColumnsRow) compareBytes(lval, rval Column, reverse bool) int {
 	return bytes.Compare(lbval, rbval)
 }
 
-func (l *orderColumnsRow) compareBool(lval, rval Column, reverse bool) int {
-	var (
-		lbool bool
-		rbool bool
-	)
-	switch lval.(type) {
+func orderBoolValue(val Column) bool {
+	switch bval := val.(type) {
 	case bool:
-		lbool = lval.(bool)
-		rbool = rval.(bool)
+		return bval
 	case string:
-		lbool = lval.(string) == "true"
-		rbool = rval.(string) == "true"
+		return bval == "true"
 	case []byte:
-		lbool = bytes.Equal(lval.([]byte), []byte("true"))
-		rbool = bytes.Equal(rval.([]byte), []byte("true"))
-	default:
-		return 0
+		return bytes.Equal(bval, []byte("true"))
 	}
+	return false
+}
+
+func (l *orderColumnsRow) compareBool(lval, rval Column, reverse bool) int {
 	lint := 0
 	rint := 0
-	if lbool {
+	if orderBoolValue(lval) {
 		lint = 1
 	}
-	if rbool {
+	if orderBoolValue(rval) {
 		rint = 1
 	}
 	if lint == rint {
@@ -259,73 +249,39 @@ func (l *orderColumnsRow) compareBool(lval, rval Column, reverse bool) int {
 	}
 }
 
-func (l *orderColumnsRow) compareNumber(lval, rval Column, reverse bool) int {
-	var (
-		lint, rint     int64
-		lfloat, rfloat float64
-		err            error
-		isFloat        bool = false
-	)
-	switch lval.(type) {
-	case int:
-		lint = int64(lval.(int))
-		rint = int64(rval.(int))
-	case int16:
-		lint = int64(lval.(int16))
-		rint = int64(rval.(int16))
-	case int32:
-		lint = int64(lval.(int32))
-		rint = int64(rval.(int32))
-	case int64:
-		lint = lval.(int64)
-		rint = rval.(int64)
-	case uint:
-		lint = int64(lval.(uint))
-		rint = int64(rval.(uint))
-	case uint16:
-		lint = int64(lval.(uint16))
-		rint = int64(rval.(uint16))
-	case uint32:
-		lint = int64(lval.(uint32))
-		rint = int64(rval.(uint32))
-	case uint64:
-		lint = int64(lval.(uint64))
-		rint = int64(rval.(uint64))
-	case float32:
-		lfloat = float64(lval.(float32))
-		rfloat = float64(rval.(float32))
-		isFloat = true
-	case float64:
-		lfloat = lval.(float64)
-		rfloat = rval.(float64)
-		isFloat = true
+// orderNumberValue converts a column value into a number, the text of a
+// number is accepted as well
+func orderNumberValue(val Column) (ival int64, fval float64, isFloat bool, ok bool) {
+	switch nval := val.(type) {
 	case []byte:
-		if lint, err = strconv.ParseInt(string(lval.([]byte)), 10, 64); err == nil {
-			if rint, err = strconv.ParseInt(string(rval.([]byte)), 10, 64); err == nil {
-				return l.compareInt(lint, rint, reverse)
-			}
-		}
-		if lfloat, err = strconv.ParseFloat(string(lval.([]byte)), 64); err == nil {
-			if rfloat, err = strconv.ParseFloat(string(rval.([]byte)), 64); err == nil {
-				return l.compareFloat(lfloat, rfloat, reverse)
-			}
-		}
-		return 0
+		return orderNumberValue(string(nval))
 	case string:
-		if lint, err = strconv.ParseInt(lval.(string), 10, 64); err == nil {
-			if rint, err = strconv.ParseInt(rval.(string), 10, 64); err == nil {
-				return l.compareInt(lint, rint, reverse)
-			}
+		if ival, err := strconv.ParseInt(nval, 10, 64); err == nil {
+			return ival, float64(ival), false, true
 		}
-		if lfloat, err = strconv.ParseFloat(lval.(string), 64); err == nil {
-			if rfloat, err = strconv.ParseFloat(rval.(string), 64); err == nil {
-				return l.compareFloat(lfloat, rfloat, reverse)
-			}
+		if fval, err := strconv.ParseFloat(nval, 64); err == nil {
+			return int64(fval), fval, true, true
 		}
+		return 0, 0, false, false
+	}
+	if ival, iok := convertToInt(val); iok {
+		return ival, float64(ival), false, true
+	}
+	if fval, fok := convertToFloat(val); fok {
+		return int64(fval), fval, true, true
+	}
+	return 0, 0, false, false
+}
+
+func (l *orderColumnsRow) compareNumber(lval, rval Column, reverse bool) int {
+	// The two values may be of different kinds: a sum is an integer in one
+	// group and a float in another
+	lint, lfloat, lIsFloat, lok := orderNumberValue(lval)
+	rint, rfloat, rIsFloat, rok := orderNumberValue(rval)
+	if !lok || !rok {
 		return 0
 	}
-
-	if isFloat {
+	if lIsFloat || rIsFloat {
 		return l.compareFloat(lfloat, rfloat, reverse)
 	}
 	return l.compareInt(lint, rint, reverse)
